@@ -224,10 +224,22 @@ func (c *checkSchema) ensureShortcutKeysAreValid(node *ischema.ObjectNode) error
 }
 
 func actualRootType(s, root *ischema.ISchema) json.Type {
+	return actualRootTypeOf(s, root, map[*ischema.ISchema]struct{}{})
+}
+
+func actualRootTypeOf(s, root *ischema.ISchema, visiting map[*ischema.ISchema]struct{}) json.Type {
 	t := s.RootNode().Type()
 	if t != json.TypeMixed {
 		return t
 	}
+
+	// A type that names itself (directly or through other types) cannot be
+	// resolved to a single JSON type.
+	if _, ok := visiting[s]; ok {
+		return json.TypeMixed
+	}
+	visiting[s] = struct{}{}
+	defer delete(visiting, s)
 
 	// mixed type for example: @aaa | @bbb
 	if n, ok := s.RootNode().(*ischema.MixedValueNode); ok {
@@ -238,7 +250,7 @@ func actualRootType(s, root *ischema.ISchema) json.Type {
 			if err != nil {
 				return json.TypeMixed
 			}
-			tt = actualRootType(ss, root)
+			tt = actualRootTypeOf(ss, root, visiting)
 			types[tt] = struct{}{}
 		}
 		if len(types) == 1 { // all USER TYPES (example: @aaa | @bbb) have the same type (example: string)
